@@ -104,8 +104,9 @@ def run_property(prop, tier, seed, jobs=None, only=None, verbose=False):
     if len(obls) < min_obl and not only and exit_code == EXIT_OK:
         lines.append(f"ENGINE-ERROR: vacuity guard: {len(obls)} obligations for {prop}, expected at least {min_obl}")
         exit_code = EXIT_ENGINE
-    unbounded = [o for o in obls if not o["bounded"]]
-    bounded = [o for o in obls if o["bounded"]]
+    kf_names = set(known_hits)
+    unbounded = [o for o in obls if not o["bounded"] and o["name"] not in kf_names]
+    bounded = [o for o in obls if o["bounded"] and o["name"] not in kf_names]
     wall = time.time() - t0
     level = PROPERTY_LEVEL.get(prop, "proof")
     samples = [{k: o[k] for k in ("name", "status", "backend", "ms", "bounded", "path")} for o in (failed[:3] + proved[:5])]
@@ -127,6 +128,7 @@ def run_property(prop, tier, seed, jobs=None, only=None, verbose=False):
             "failed": [o["name"] for o in failed],
             "undecided": [o["name"] for o in unknown] + [f for f, _ in unsupported],
             "known_findings_matched": known_hits,
+            "known_finding_obligations": len(known_hits),
             "source_sha256": prog.source_hashes(),
             "samples": samples,
             "explanation": "every obligation is generated from the AST of /repo/src on this run and discharged by SMT; see DESIGN.md",
